@@ -337,7 +337,11 @@ def rule_6(ctx):
         shown = chain[a] if len(chain[a]) < 60 else chain[a][:40] + f'... ({count} operands)'
         ctx.expect(S.same(got, _as_value(w)), anchor, f'& chain of {count} operands: {shown}',
                    f'{shown} evaluates to {str(got)[:80]!r}, expected {str(w)[:40]!r}...: & joins its two operands, chains of any length included')
-    ctx.floor(230, 'text cells')
+    seq = []
+    for v in (1, True, 1.0, 'abc', 'ABC', 'aBc', 0, False, 0.0, '1', 'true', 'True'):
+        seq += [('LEN', (v,)), ('UPPER', (v,)), ('LEFT', (v, 2)), ('CONCAT', (v, 'x', v)), ('EXACT', (v, 'abc')), ('MID', (v, 1, 2)), ('LOWER', (v,)), ('RIGHT', (v, 1))]
+    S.check_call_sequence(ctx, 'text functions', seq + list(reversed(seq)))
+    ctx.floor(400, 'text cells')
 
 
 RULES = [
